@@ -148,6 +148,7 @@ func genC08Call(t *rapid.T, w chain.World, label string) c08Call {
 
 func genC08(t *rapid.T) c08Case {
 	w := genEvmWorld(t, c08Cfg)
+	w.Deployers = []int{0}
 	// the twin comparison needs blocks that execute identically: any fee-market configuration is fine
 	cs := c08Case{World: w}
 	for b, nb := 0, rapid.IntRange(1, 4).Draw(t, "nblocks"); b < nb; b++ {
@@ -167,6 +168,25 @@ func genC08(t *rapid.T) c08Case {
 			blk.Calls = append(blk.Calls, genC08Call(t, w, fmt.Sprintf("b%dc%d", b, n)))
 		}
 		cs.Blocks = append(cs.Blocks, blk)
+	}
+	// the set of custom precompiles changes during the history: an ERC-20 precompile for the secondary denomination is
+	// deployed by a tx of some block; calls to its (predictable) address are asked before and after, and every remembered
+	// question is asked again at its own height at the end - answers depend on the state of the requested height only
+	if rapid.IntRange(0, 2).Draw(t, "deploys") == 0 {
+		db := rapid.IntRange(0, len(cs.Blocks)-1).Draw(t, "deployblock")
+		cs.Blocks[db].Plan.Txs = append(cs.Blocks[db].Plan.Txs, TxPlan{Kind: "deploy20", From: 0, Gas: 500000, CapOver: gwei})
+		for b := range cs.Blocks {
+			data := packErc20("name")
+			if rapid.Bool().Draw(t, "foobalance") {
+				data = packErc20("balanceOf", chain.K(1).Addr)
+			}
+			cs.Blocks[b].Calls = append(cs.Blocks[b].Calls, c08Call{Kind: "ethcall", From: 1, To: erc20FooAddr().Hex(), Data: data, Value: "0", Gas: 1000000})
+			if b >= db && rapid.Bool().Draw(t, "archive") {
+				// an archive query right after the set changed, then the same question at the latest height
+				cs.Blocks[b].Calls = append(cs.Blocks[b].Calls, c08Call{Kind: "againall"}, c08Call{Kind: "ethcall", From: 2, To: erc20FooAddr().Hex(), Data: data, Value: "0", Gas: 1000000})
+			}
+		}
+		cs.Blocks[len(cs.Blocks)-1].Calls = append(cs.Blocks[len(cs.Blocks)-1].Calls, c08Call{Kind: "againall"})
 	}
 	return cs
 }
@@ -407,6 +427,20 @@ func runC08(cs c08Case) *Outcome {
 			path, data := c08Grpc(c)
 			query("grpc "+c.Q, path, data, true)
 			o.label("call:grpc")
+		case "againall":
+			for _, q := range asked {
+				q := q
+				guarded("repeated "+q.What, func() {
+					r, err := a.Query(q.Path, q.Data, q.Height)
+					if err != nil {
+						r = &abci.ResponseQuery{Code: 99999}
+					}
+					if r.Code != q.Code || !bytes.Equal(r.Value, q.Value) {
+						o.dev("", "%s at height %d answers differently after the chain moved on to height %d (code %d -> %d)", q.What, q.Height, a.Height, q.Code, r.Code)
+					}
+				})
+			}
+			o.label("call:againall")
 		case "again":
 			if len(asked) == 0 {
 				return
